@@ -17,6 +17,14 @@ importable, so that the same functions run natively on the real classes.
 """
 
 
+from pydsdl._parser import _ParseTreeProcessor
+
+
+def begin(statement_stream_processor, strict):
+    """parse(): the processor is created on the (fresh) statement stream processor before the traversal starts."""
+    return _ParseTreeProcessor(statement_stream_processor, strict=strict)
+
+
 def line_blank(pr, line_node, g_eol, g_open, g_tag, g_type, g_name, g_value, g_doc, g_line, g_hdr_open, g_hdr, g_count):
     """An empty line (no statement, no blanks, no comment)."""
     pr.visit_line(line_node, ())
